@@ -206,6 +206,12 @@ Loop:
 			case codec.MovedOrAsk:
 				addr, slot := r.parseMovedOrAsk()
 				el.eventHandler.OnMoved(addr, slot, s, r)
+				// the redirect could not be followed: the handler completed the request with an error
+				if r.Peer != nil && r.Peer.Done {
+					if oc, ok := r.Owner.(*conn); ok && oc.opened {
+						el.flushDone(oc)
+					}
+				}
 				continue
 
 			// The current message has been processed, continue to process the next message
